@@ -1,14 +1,14 @@
 # executed by mkfindings.py (uses add, cfg, D and the O_* constants)
 add("F01","C10","fixed","hang","RemoveAll of a missing path returned nil but left the drive locked: the next write blocked forever (every error return between GetWriter and CloseWriter leaked the lock)",
-    ops=[{"k":"removeall","p":"/b"}], params={"enumerate":0}, commit="24afff3")
+    ops=[{"k":"removeall","p":"/b"}], params={"enumerate":0}, commit="release the drive when a write operation fails")
 add("F02","C10","fixed","hang","a failing open of the drive (for writing or reading) left the drive lock held",
-    ops=[{"k":"mkdir","p":"/d","m":0o755}], faults=[{"seam":"drive.openfile","k":1}], params={"enumerate":0}, commit="60d1b02")
+    ops=[{"k":"mkdir","p":"/d","m":0o755}], faults=[{"seam":"drive.openfile","k":1}], params={"enumerate":0}, commit="release the drive lock when opening the drive fails")
 add("F03","C10","fixed","crash","an error in the restore goroutine behind File.Read/Seek called panic and killed the process (here: reading a never-written file under gzip)",
-    ops=[{"k":"writefile","p":"/a","d":D(0,1)}], cfg_=cfg(comp="gzip"), params={"enumerate":0}, commit="08ef6ff")
+    ops=[{"k":"writefile","p":"/a","d":D(0,1)}], cfg_=cfg(comp="gzip"), params={"enumerate":0}, commit="report restore errors to the reader instead of panicking")
 add("F24","C02","fixed","unexpected-failure:rename","after an index rebuild Remove/Rename failed with 'Format specifies USTAR; and only PAX supports PAXRecords'",
-    ops=[{"k":"mkdir","p":"/b","m":0o755},{"k":"rebuild"},{"k":"rename","p":"/b","q":"/c"},{"k":"remove","p":"/c"}], commit="63c86e2")
+    ops=[{"k":"mkdir","p":"/b","m":0o755},{"k":"rebuild"},{"k":"rename","p":"/b","q":"/c"},{"k":"remove","p":"/c"}], commit="entries can be moved and deleted after an index rebuild")
 add("F25","C10","fixed","hang","after a failed drive write left index and tape out of step, reading an entry whose position holds a non-regular record blocked forever (restore ended without closing the pipe)",
-    ops=[{"k":"mkdir","p":"/d","m":0o755},{"k":"writefile","p":"/a","d":D(0,1)}], faults=[{"seam":"drive.write","k":4}], params={"enumerate":0}, commit="3ec4cde")
+    ops=[{"k":"mkdir","p":"/d","m":0o755},{"k":"writefile","p":"/a","d":D(0,1)}], faults=[{"seam":"drive.write","k":4}], params={"enumerate":0}, commit="a read never waits forever")
 add("KF3","C16","open","opened-differs-from-scratch-rebuild",
     "opening over an existing index that reflects only a prefix of the tape (stale index, e.g. after a crash between the tape append and the index update) never catches up: Initialize returns the cached root and the filesystem shows the stale prefix state, not what a rebuild of the tape shows",
     ops=[{"k":"mkdir","p":"/d","m":0o755}], params={"enumerate":0,"cut":-1,"idx":0}, relax="stale-index-open")
@@ -19,7 +19,7 @@ def addfile(id,prop,status,oracle,what,relax=None,commit=None,also=None):
     json.dump(c,open("/verif/"+fn,"w"),indent=1)
     e={"id":id,"property":prop,"status":status,"oracle":oracle,"what":what,"replay":fn}
     if relax: e["relaxation"]=relax
-    if commit: e["commit"]=commit
+    if commit: e["commit"]=resolve(commit)
     if also: e["also"]=also
     F.append(e)
 addfile("KF2","C16","open","open-appends-although-root-exists",
@@ -29,14 +29,26 @@ addfile("KF4","C16","open","write-after-open-fails",
     "after opening a tape whose tail is cut off the 512-byte grid (or inside a record), later writes are appended directly behind the torn bytes: they are never indexed (the call fails with not-exist or the entry is lost on rebuild)",
     relax="torn-tail-append")
 add("F26","C03","fixed","read-fails","pgp + parallelbzip2: content larger than one bzip2 block could not be read back (OpenPGP body read again after EOF -> 'MDC hash mismatch')",
-    ops=[{"k":"content","p":"/f0","d":D(150038,7,"rand")}], cfg_=cfg(comp="parallelbzip2",enc="pgp"), params={"chunk":0,"sleep":0}, commit="571f59e")
+    ops=[{"k":"content","p":"/f0","d":D(150038,7,"rand")}], cfg_=cfg(comp="parallelbzip2",enc="pgp"), params={"chunk":0,"sleep":0}, commit="PGP-encrypted content larger than one bzip2 block")
 add("F27","C08","fixed","accepted-header-not-signed","PGP: a record whose STFS.Signature is garbage (valid base64 that is no signature, not base64 at all, a non-signature packet) had its forged embedded header accepted by the index rebuild",
-    ops=[{"k":"mkdir","p":"/d","m":0o755},{"k":"writefile","p":"/d/f","d":D(10,1)}], cfg_=cfg(sig="pgp"), params={"enumerate":0,"a0":0,"a1":0,"a2":0}, sparams={"alt":"garbage-sig"}, commit="104d778")
+    ops=[{"k":"mkdir","p":"/d","m":0o755},{"k":"writefile","p":"/d/f","d":D(10,1)}], cfg_=cfg(sig="pgp"), params={"enumerate":0,"a0":0,"a1":0,"a2":0}, sparams={"alt":"garbage-sig"}, commit="PGP header verification rejects undecodable")
 add("KF5","C01","open","root-name-differs",
     "the root directory reports its own name as \"/\" on the instance that created the tape and as \".\" after the index has been rebuilt from the tape (the rebuild stores the root under the sanitized name \"\")",
     ops=[{"k":"mkdir","p":"/a","m":0o755}], relax="root-name")
 add("F28","C18","fixed","sign-fails","a PGP pair generated with an empty password parsed but could neither sign ('signing key is encrypted') nor decrypt ('incorrect key')",
-    cfg_=PLAIN, params={"pw":0,"d0":0,"d1":1,"len":100}, sparams={"kind":"sig:pgp"}, commit="99ef6a5")
+    cfg_=PLAIN, params={"pw":0,"d0":0,"d1":1,"len":100}, sparams={"kind":"sig:pgp"}, commit="PGP keys generated with an empty password")
 addfile("KF6","C11","open","hang",
     "a handle that has been read only partially keeps the drive and the read-side operation lock (its restore goroutine is parked in the pipe) until it is closed: any writing call of another caller then blocks while holding the filesystem lock, and the reader's own Close blocks on that lock - the whole instance deadlocks",
     relax="nopartialreads")
+addfile("F29","C11","fixed","not-linearizable",
+    "a Chmod by another caller between Create and Close of a written handle was undone by the Close (the handle archived its cached attributes)",
+    commit="closing a written file archives it under its current state")
+addfile("F30","C11","fixed","not-linearizable",
+    "same defect, second schedule: Chmod of a file another caller has open for writing is lost when that caller closes it",
+    commit="closing a written file archives it under its current state")
+add("F31","C02","fixed","tree-differs-after:h.close","closing a written handle whose entry had been removed meanwhile resurrected the entry",
+    ops=[{"k":"create","p":"/t","h":1},{"k":"h.write","h":1,"d":D(20,1)},{"k":"remove","p":"/t"},{"k":"h.close","h":1},{"k":"stat","p":"/t"}],
+    commit="closing a written file archives it under its current state")
+add("F32","C01","fixed","rebuild-differs","closing a written handle whose entry had been renamed away appended a record no index row matched; the next write was then indexed at that stale record's position (a new empty file showed the other file's bytes until the index was rebuilt)",
+    ops=[{"k":"create","p":"/t","h":1},{"k":"h.write","h":1,"d":D(3,1)},{"k":"rename","p":"/t","q":"/u"},{"k":"h.close","h":1},{"k":"writefile","p":"/c7","d":D(0,2)}],
+    commit="closing a written file archives it under its current state")
